@@ -328,6 +328,25 @@ func (g *gen) acase() acaseT {
 	if r.Chance(1, 12) {
 		k.Wire = "s"
 	}
+	// something had set a Content-Type before the error happened
+	if r.Chance(1, 5) {
+		k.PreCT = sp(hx.Pick(r, []string{"text/csv; charset=utf-8", "text/html", "application/json", "application/octet-stream", "application/problem+json", "image/png"}))
+		k.PreAt = r.Intn(2)
+	}
+	return k
+}
+
+// ocase: 2 or 3 failing requests that overlap on one app
+func (g *gen) ocase() ocaseT {
+	r := g.r
+	k := ocaseT{Opts: g.opts(), Park: hx.Pick(r, []string{"h", "w"})}
+	n := r.Range(2, 3)
+	for i := 0; i < n; i++ {
+		a := g.acase()
+		a.Opts = k.Opts
+		a.Wire = "r"
+		k.Reqs = append(k.Reqs, a)
+	}
 	return k
 }
 
@@ -386,6 +405,25 @@ func fixedCases() []caseT {
 	add(acaseT{Wire: "r", Opts: []optT{{F: &japi}}, Len: 2, Pos: 1, Mask: 1, Call: callT{Kind: "fail", Err: &e0}})
 	v0 := errT{Kind: "valerr"}
 	add(acaseT{Wire: "r", Opts: []optT{{F: &japi}}, Len: 2, Pos: 1, Mask: 1, Call: callT{Kind: "fail", Err: &v0}})
+	// a Content-Type already set when the handler fails (download handler; default-content-type middleware)
+	for _, f := range []fmtT{rfc, japi, simple} {
+		f := f
+		add(acaseT{Wire: "r", Opts: []optT{{F: &f}}, Len: 2, Pos: 1, Mask: 1, PreCT: sp("text/csv; charset=utf-8"), PreAt: 1,
+			Call: callT{Kind: "helper", Helper: 9, Err: &errT{Kind: "new", Msg: "report store is down"}}})
+		add(acaseT{Wire: "r", Opts: []optT{{F: &f}}, Len: 3, Pos: 2, Mask: 3, PreCT: sp("application/json"), PreAt: 0,
+			Call: callT{Kind: "helper", Helper: 0, Err: boom}})
+	}
+	// two failing requests overlap: the first is parked inside WriteHeader / Write while the second is served
+	for _, park := range []string{"h", "w"} {
+		for _, f := range []fmtT{rfc, japi} {
+			f := f
+			opts := []optT{{F: &f}}
+			out = append(out, caseT{O: &ocaseT{Opts: opts, Park: park, Reqs: []acaseT{
+				{Wire: "r", Opts: opts, Len: 2, Pos: 1, Mask: 1, Call: callT{Kind: "helper", Helper: 0, Err: &errT{Kind: "new", Msg: "no such user"}}},
+				{Wire: "r", Opts: opts, Len: 2, Pos: 1, Mask: 1, Call: callT{Kind: "helper", Helper: 4, Err: &errT{Kind: "new", Msg: "busy"}}},
+			}}})
+		}
+	}
 	// MarshalJSON with extensions that try to override every reserved member
 	out = append(out, caseT{M: &mcaseT{Type: "about:blank", Title: "Not Found", Status: 404, Ext: []extT{
 		{"type", `"evil"`}, {"title", `"evil"`}, {"status", `200`}, {"detail", `"evil"`}, {"instance", `"evil"`}, {"trace", `"t-` + strconv.Itoa(1) + `"`}}}})
